@@ -182,6 +182,7 @@ def history(ctx, props):
     nontrivial = False
     nt05 = False
     last_reb = None
+    unreported = [0.0]         # interest credited by refused requests, not yet reported by a recorded one
 
     def quote(c):
         if c in mid:
@@ -248,8 +249,11 @@ def history(ctx, props):
                     refused = True
                 if refused is not None:
                     ctx.check("C13:rebalance-raises-when-missing", refused, scenario="history", target="never quoted")
+                # the interest of the elapsed period was credited (C13 allows it); it is REPORTED by the next recorded
+                # rebalance, together with that one's own
                 if isinstance(r.profit_on_idle_cash, float) or hasattr(r.profit_on_idle_cash, "__float__"):
-                    led.interest += float(r.profit_on_idle_cash)
+                    led.interest += float(r.profit_on_idle_cash) - unreported[0]
+                    unreported[0] = float(r.profit_on_idle_cash)
                 ctx.cat("op:rebalance-refused-then-carry-on")
                 ops_log.append(["rebalance-refused"])
                 op = "val"
@@ -383,7 +387,9 @@ def history(ctx, props):
                 except EndOfEpisodeError:
                     failed = True
                 if isinstance(r.profit_on_idle_cash, float) or hasattr(r.profit_on_idle_cash, "__float__"):
-                    led.interest += float(r.profit_on_idle_cash)
+                    led.interest += float(r.profit_on_idle_cash) - unreported[0]
+                    # (a request that ends the episode is not recorded either: what it reports stays 'unreported')
+                    unreported[0] = 0.0 if not failed else float(r.profit_on_idle_cash)
                 pre_l = led.nlv()
                 if failed:
                     # NLV <= 0 either before trading (no trades) or after the
